@@ -90,17 +90,24 @@ func (cache *MemoryCache[K, V]) Set(key K, value V, ttlSec float64) error {
 	ensureCacheInitialized(cache)
 
 	itemSize := float64(0)
-	if cache.calculateCacheSize && cache.calculateSizeFunc != nil {
+	// size settings may be (re)applied by WithMaxCacheSize while requests are being stored
+	cache.mutex.RLock()
+	calculateCacheSize := cache.calculateCacheSize
+	calculateSizeFunc := cache.calculateSizeFunc
+	maxCacheSize := cache.maxCacheSize
+	currentCacheSize := cache.currentCacheSize
+	cache.mutex.RUnlock()
+	if calculateCacheSize && calculateSizeFunc != nil {
 		// We might miss here a momentary case of adding 2 messages when
 		// there is enough place for only one.
 		// The choice to put the check outside of the lock is intentional,
 		// we are 'saving' value allocation and lock by checking the size first
-		itemSize = cache.calculateSizeFunc(key, value)
-		if cache.currentCacheSize+itemSize > cache.maxCacheSize {
+		itemSize = calculateSizeFunc(key, value)
+		if currentCacheSize+itemSize > maxCacheSize {
 			return fmt.Errorf(
 				"Cannot add item: max cache size would be exceeded."+
 					" Current cache size is %v",
-				cache.currentCacheSize)
+				currentCacheSize)
 		}
 	}
 
@@ -141,6 +148,9 @@ func (cache *MemoryCache[K, V]) Del(key K) {
 func (cache *MemoryCache[K, V]) WithMaxCacheSize(
 	calculateSizeFunc func(K, V) float64, maxCacheSize float64,
 ) {
+	// called on every cached response while other requests are storing
+	cache.mutex.Lock()
+	defer cache.mutex.Unlock()
 	cache.calculateCacheSize = true
 	cache.calculateSizeFunc = calculateSizeFunc
 	cache.maxCacheSize = maxCacheSize
